@@ -194,6 +194,43 @@ def r11_7(chk, facts):
             else: chk.fail('R11.7', site, fn['file'], nd.line, '%s: the branch for schema_version::%s() builds %s' % (fn['n'], want, ', '.join(sorted(built))), {'constructs': sorted(built)}, fn['q'])
     chk.require(n >= 15, 'R11.7: only %d dialect branches found in json_schema_factory.hpp' % n)
 
+def r11_8(chk, facts):
+    """contains / minContains / maxContains: the factory always hands the validator both bounds (defaults 1 and unbounded)."""
+    chk.rule('R11.8', 'contains defaults: in make_contains_validator the minContains and maxContains keyword objects handed to contains_validator are '
+                      'assigned on every path (explicit value or default 1 / unbounded); contains_validator enforces "at least one match" by itself '
+                      'only when both are absent', floor=2)
+    fns = [f for f in facts.functions if f['n'] == 'make_contains_validator' and f.get('body') is not None and not f.get('dep')]
+    chk.require(fns, 'make_contains_validator not found')
+    n = 0
+    for fn in U.one_per_inst(fns)[:1]:
+        chk.analysed(fn)
+        g = C.CFG(fn['body'])
+        # unique_ptr locals moved into the contains_validator construction
+        uses = {}
+        for nd in g.rpo:
+            if nd.kind not in ('stmt', 'return') or not isinstance(nd.ast, dict): continue
+            for c in A.calls_in(nd.ast):
+                if A.callee_name(c) == 'make_unique' and 'contains_validator' in ''.join(c.get('ta') or []) + (c.get('cq') or ''):
+                    for a in c.get('args') or []:
+                        for y in A.walk(a):
+                            if y.get('k') == 'DeclRefExpr' and y.get('dk') == 'Var' and 'contains' in y.get('n', ''): uses[y['id']] = (y['n'], nd)
+        chk.require(len(uses) >= 2, 'R11.8: the bounds passed to contains_validator were not recognised (%s)' % [v[0] for v in uses.values()])
+        for vid, (vn, use_nd) in sorted(uses.items()):
+            n += 1
+            decl = None; assigns = []
+            for nd in g.rpo:
+                if nd.kind != 'stmt' or not isinstance(nd.ast, dict): continue
+                if nd.ast.get('k') == 'DeclStmt' and any(d.get('id') == vid for d in nd.ast.get('decls') or []): decl = nd
+                am = U.assigned_member(nd.ast)
+                if am and am[0] == vn and any(A.callee_name(c) == 'make_unique' for c in A.calls_in(am[1])): assigns.append(nd)
+            site = U.site(fn, 'bound %s' % vn)
+            if decl is None:
+                chk.fail('R11.8', site, fn['file'], fn['l'], 'declaration of %s not found' % vn, None, fn['q']); continue
+            unassigned = any(g.can_reach(s2, [use_nd], avoid=assigns) for s2 in decl.succ)
+            if not unassigned: chk.ok('R11.8', site, {'assignments': len(assigns)})
+            else: chk.fail('R11.8', site, fn['file'], decl.line, 'make_contains_validator: `%s` can reach the contains_validator construction still null: with only the other bound present the validator skips its own "at least one match" rule, so the default of the missing keyword is lost' % vn, None, fn['q'])
+    chk.require(n >= 2, 'R11.8: only %d bounds checked' % n)
+
 def run(chk, tier, only_rule=None):
     chk.explanation = EXPLANATION
     chk.not_decided = NOT_DECIDED
@@ -206,6 +243,7 @@ def run(chk, tier, only_rule=None):
     r11_5(chk, facts)
     r11_6(chk, facts)
     r11_7(chk, facts)
+    r11_8(chk, facts)
     voc = vocab()
     # keywords looked up by the shared layers every dialect factory delegates to
     shared = {}
